@@ -12,7 +12,7 @@ def check(ctx, rep):
         "stored only by the start path (and reset only before the first start), the running flag is stored "
         "True only in the window wrapper while the slot is held and never reset, hence is_done => is_running "
         "=> is_scheduled and nothing reverts. R14.3 identity: the wrapper returns the awaited body's value "
-        "unchanged and never replaces its exception; the coroutine-based job returns the awaited value. R14.4 a cancelled nested scheduler ends cancelled (never by a return): a cancelled job is never reported done. R14.5 (= R01.1) every job body, nested schedulers included, is started through the window wrapper, the only place that sets the running flag: a job cannot be done without having been running.")
+        "unchanged and never replaces its exception; the coroutine-based job returns the awaited value. R14.4 a cancelled nested scheduler ends cancelled (never by a return): a cancelled job is never reported done. R14.5 (= R01.1) every job body, nested schedulers included, is started through the window wrapper, the only place that sets the running flag: a job cannot be done without having been running. R14.6 once the body has finished nothing in the wrapper suspends before it ends (giving the slot back does not: T4): the job is reported done at the first quiescent point after its body ended, and no cancellation can turn a completed job into a cancelled one.")
     rep.trusted = ["T5 Task._state/_exception/_result (constant read from the stdlib source)", "T8"]
     predicates.lifecycle_tables(ctx, rep, "R14.1")
     predicates.writers_monotone(ctx, rep, "R14.2")
@@ -20,3 +20,4 @@ def check(ctx, rep):
     predicates.identity_flow(ctx, rep, "R14.3")
     shutrules.cancellation_propagates(ctx, rep, "R14.4")
     common.who_may_start(ctx, rep, "R14.5")
+    common.no_suspension_after_body(ctx, rep, "R14.6")
